@@ -251,3 +251,8 @@ def classify(case, mo):
 def select_for_mode(case, mode, tier):
     # interpreted / bounds-checked runs: every 7th case in quick, all in thorough small scope
     return len(case["left"]) + len(case["right"]) <= 12 and (tier != "quick" or case.get("_n", 0) % 5 == 0)
+
+
+# the TRANSLATED join kernels (Gen/Kernels.lean) are executed against the real kernels on a seeded stream of direct kernel calls
+from checks.harness import genkernels  # noqa: E402
+genkernels.install(globals(), "C03")
